@@ -36,6 +36,15 @@ type incremental[Obj comparable] struct {
 	// not lock the table while reconciling. If an object has changed in the meanwhile
 	// the stale reconciliation result for that object is dropped.
 	results map[Obj]opResult
+
+	// consumedRev is the revision of the last change taken from the change stream
+	// and truncated tells that the last round stopped before the end of the stream
+	// (IncrementalRoundSize). The revision is reported as attempted only after a
+	// round that reached the end of its snapshot's stream: the objects that were
+	// left over may carry changes older than consumedRev, as a status write by
+	// another reconciler of the same object gives it a new revision.
+	consumedRev statedb.Revision
+	truncated   bool
 }
 
 // opResult is the outcome from reconciling a single object
@@ -49,10 +58,17 @@ type opResult struct {
 func (incr *incremental[Obj]) run(ctx context.Context, txn statedb.ReadTxn, changes iter.Seq2[statedb.Change[Obj], statedb.Revision]) (errs []error, lastRev statedb.Revision, retryLowWatermark statedb.Revision) {
 	// Reconcile new and changed objects using either Operations
 	// or BatchOperations.
+	incr.truncated = false
 	if incr.config.BatchOperations != nil {
 		lastRev = incr.batch(ctx, txn, changes)
 	} else {
 		lastRev = incr.single(ctx, txn, changes)
+	}
+	incr.consumedRev = max(incr.consumedRev, lastRev)
+	if incr.truncated {
+		lastRev = 0
+	} else {
+		lastRev = incr.consumedRev
 	}
 
 	// Commit status updates for new and changed objects.
@@ -99,6 +115,7 @@ func (incr *incremental[Obj]) single(ctx context.Context, txn statedb.ReadTxn, c
 		incr.processSingle(ctx, txn, obj, rev, change.Deleted)
 		incr.numReconciled++
 		if incr.numReconciled >= incr.config.IncrementalRoundSize {
+			incr.truncated = true
 			break
 		}
 	}
@@ -139,6 +156,7 @@ func (incr *incremental[Obj]) batch(ctx context.Context, txn statedb.ReadTxn, ch
 
 		incr.numReconciled++
 		if incr.numReconciled >= incr.config.IncrementalRoundSize {
+			incr.truncated = true
 			break
 		}
 	}
